@@ -258,6 +258,13 @@ pub struct Outcome {
 }
 
 impl Outcome {
+    /// The watchdog fired although the process had hardly used any CPU: it was waiting for
+    /// something that never came (a lost wake-up, a deadlock), not working. Wall-clock alone
+    /// is never a verdict here; "stopped after >= 20 s having used < 3 s of CPU" is what
+    /// separates a process that is stuck from one that is slow on a loaded machine.
+    pub fn idle_hang(&self) -> bool {
+        self.exit == Exit::Timeout && self.wall >= Duration::from_secs(20) && self.cpu_ms < 3000
+    }
     pub fn text(&self) -> String {
         let mut s = String::from_utf8_lossy(&self.stdout).to_string();
         s.push_str(&String::from_utf8_lossy(&self.stderr));
